@@ -21,7 +21,10 @@ pub open spec fn uplink_post(o: &SrtlaConnection, n: &SrtlaConnection, data: Seq
     // every non-registration datagram (>= 2 bytes) refreshes the liveness stamp
     &&& (t is Some && !is_reg_type(t.unwrap()) ==> n.last_received == Some(now))
     &&& (t == Some(0x9202u16) ==> n.connected && n.last_received == Some(now) && n.phase == (LinkPhase::Warming { rtt_probes: 0, entered_ms: now })
-            && n.in_flight_packets == 0 && n.packet_log@.len() == 0 && n.window == o.window)
+            && n.in_flight_packets == 0 && n.packet_log@.len() == 0 && n.window == o.window
+            // REG3 restarts the back-off (failure count) but never the 5 s retry timer
+            && n.reconnection.last_reconnect_attempt_ms == o.reconnection.last_reconnect_attempt_ms && n.reconnection.reconnect_failure_count == 0
+            && n.reconnection.connection_established_ms == (if o.reconnection.connection_established_ms == 0 { now } else { o.reconnection.connection_established_ms }))
     &&& (n.last_ack_or_rtt_sample_ms != o.last_ack_or_rtt_sample_ms ==> n.last_ack_or_rtt_sample_ms == now)
 }
 '''
@@ -42,7 +45,7 @@ def add_uplink(u):
     u.add(u.fn(UR, 'process_uplink_packet', sub='events', ret='r', erase_async=True, props=('C09',),
                pre_rewrite=[(_ack_fast_path, None, 1),
                             ('for seq in nak_list {', 'for &seq in nak_list.iter() {', 1), ('for seq in ack_list {', 'for &seq in ack_list.iter() {', 1)],
-               post_rewrite=[('-> Result<SrtlaIncoming>', '-> Result<SrtlaIncoming, AnyhowError>', 1), ('srtla_core::utils::now_ms()', 'now_ms()', 1),
+               post_rewrite=[('-> Result<SrtlaIncoming>', '-> Result<SrtlaIncoming, AnyhowError>', 1), 
                              (re.compile(r'SrtlaIncoming \{\s*read_any: true,\s*\.\.Default::default\(\)\s*,?\s*\}'), 'srtla_incoming_new()', 1),
                              ('&tokio::sync::mpsc::UnboundedSender<(SocketAddr, Vec<u8>)>', '&InstantFwd', 1)],
                requires=['old(conn).phase is Warming ==> old(conn).phase->rtt_probes < 0xffff_ffff'],
